@@ -516,6 +516,21 @@ impl Sys {
 
     /// connect (default options), CONNACK with the given properties, run()
     pub fn bring_up(&mut self, connack_props: Vec<Prop>) {
+        // params["early"] = n: n requests are made before connect() - they wait in the queue and are
+        // served, like any other, once run() is; the handle is usable from Context::new() on
+        if let Some(n) = self.params["early"].as_u64() {
+            let specs = [
+                OpSpec::Publish(PublishSpec::simple(1, "t/early", b"e1")),
+                OpSpec::Ping,
+                OpSpec::Publish(PublishSpec::simple(2, "t/early", b"e2")),
+                OpSpec::Subscribe(SubscribeSpec::simple("s/early")),
+            ];
+            if self.m.ops.is_empty() {
+                for spec in specs.iter().take(n as usize) {
+                    self.apply(Ev::Start(spec.clone()));
+                }
+            }
+        }
         self.connect_with(
             ConnectSpec::default(),
             SPacket::Connack {
